@@ -29,13 +29,14 @@ template <typename BC, typename V, typename B>
 static void call(Json& r, const std::string& kind, const std::string& policy, const V& v, const B lo, const B up) {
   const bool dflt = policy == "default";
   const OutOfBoundsPolicy p = policy == "None" ? None : (policy == "Warning" ? Warning : Strict);
+  const std::string x = "x";
   observe(r, [&] {
     if (kind == "lower") {
-      if (dflt) BC::lowerBoundCheck("x", v, lo); else BC::lowerBoundCheck("x", v, lo, p);
+      if (dflt) BC::lowerBoundCheck(x, v, lo); else BC::lowerBoundCheck(x, v, lo, p);
     } else if (kind == "upper") {
-      if (dflt) BC::upperBoundCheck("x", v, up); else BC::upperBoundCheck("x", v, up, p);
+      if (dflt) BC::upperBoundCheck(x, v, up); else BC::upperBoundCheck(x, v, up, p);
     } else {
-      if (dflt) BC::lowerAndUpperBoundsChecks("x", v, lo, up); else BC::lowerAndUpperBoundsChecks("x", v, lo, up, p);
+      if (dflt) BC::lowerAndUpperBoundsChecks(x, v, lo, up); else BC::lowerAndUpperBoundsChecks(x, v, lo, up, p);
     }
   });
 }
@@ -60,8 +61,15 @@ int main(int argc, char** argv) {
     const auto e = c["entity"].asStr(), kind = c["kind"].asStr(), policy = c["policy"].asStr();
     const auto vs = c["vs"].asInts();
     const auto n = c["n"].asInt();
-    if (e == "double") call<BoundsCheck<1u>>(r, kind, policy, double(vs[0]), Lb, Ub);
-    else if (e == "quantity") call<BoundsCheck<1u>>(r, kind, policy, stress(double(vs[0])), Lb, Ub);
+    if (e == "double") {
+      if (n == 1) call<BoundsCheck<1u>>(r, kind, policy, double(vs[0]), Lb, Ub);
+      else if (n == 2) call<BoundsCheck<2u>>(r, kind, policy, double(vs[0]), Lb, Ub);
+      else call<BoundsCheck<3u>>(r, kind, policy, double(vs[0]), Lb, Ub);
+    } else if (e == "quantity") {
+      if (n == 1) call<BoundsCheck<1u>>(r, kind, policy, stress(double(vs[0])), Lb, Ub);
+      else if (n == 2) call<BoundsCheck<2u>>(r, kind, policy, stress(double(vs[0])), Lb, Ub);
+      else call<BoundsCheck<3u>>(r, kind, policy, stress(double(vs[0])), Lb, Ub);
+    }
     else if (n == 1) tens<1>(r, e, kind, policy, vs);
     else if (n == 2) tens<2>(r, e, kind, policy, vs);
     else tens<3>(r, e, kind, policy, vs);
